@@ -203,6 +203,7 @@ def check_token(tok: Any, cls: str, step: int, what: str) -> list[Violation]:
 class TokSim(core.Engine):
     name = 'toksim'
 
+    @core.stuck_guard
     def _execute(self, trace: dict, prop: str, rng: Optional[random.Random]) -> core.RunResult:
         knobs = trace['knobs']
         cls = knobs['cls']
